@@ -352,6 +352,24 @@ func cmdCProbeSem(c *ctx) {
 			}
 		}
 	}
+	c.precedenceProbes(dialect, bnd)
+}
+
+// precedence probes: builtin / unary operator applied to an un-named binary expression
+func (c *ctx) precedenceProbes(dialect string, bnd []uint32) {
+	for _, f := range []string{"neg", "bnot", "abs", "firstLeadingBit", "firstTrailingBit", "countOneBits", "reverseBits", "min", "max", "sign"} {
+		for _, k := range []string{"i32", "u32"} {
+			if (f == "neg" || f == "sign") && k == "u32" {
+				continue
+			}
+			for _, inner := range []string{"&", "|", "^", "+", "-", "*"} {
+				for _, n := range []int{1, 3} {
+					m := probeModuleX(k, n, "", false, false, f, inner)
+					c.probeCases(dialect, m, fmt.Sprintf("%s(%s) %s x%d", f, inner, k, n), bnd, f)
+				}
+			}
+		}
+	}
 }
 
 func init() { commands["cprobesem"] = cmdCProbeSem }
@@ -368,6 +386,13 @@ var f2iNaNBits = []uint32{0x7fc00000, 0xffc00000, 0x7f800001, 0xff800001, 0x7fff
 
 // probeModule builds the generator-AST form of `outp[0..] = bits(a OP b)` with a, b loaded from inp.
 func probeModule(kind string, n int, op string, rhsU, resBool bool, fn string) *wmodule {
+	return probeModuleX(kind, n, op, rhsU, resBool, fn, "")
+}
+
+// probeModuleX: as probeModule; with inner != "" the (first) operand of the builtin / unary operator `fn` is the
+// single-use, un-named binary expression `a INNER b` (precedence probes: the writers paste operands into larger
+// expressions, some of them several times).
+func probeModuleX(kind string, n int, op string, rhsU, resBool bool, fn, inner string) *wmodule {
 	kt := map[string]*wty{"i32": tI32, "u32": tU32, "f32": tF32}[kind]
 	ty := func(s *wty) *wty {
 		if n == 1 {
@@ -402,6 +427,9 @@ func probeModule(kind string, n int, op string, rhsU, resBool bool, fn string) *
 	b := load(bt, 4)
 	var r *wexpr
 	rt := ty(kt)
+	if inner != "" {
+		a = &wexpr{k: "bin", ty: rt, op: inner, args: []*wexpr{a, b}}
+	}
 	switch {
 	case fn == "f2i":
 		rt = ty(tI32)
